@@ -326,3 +326,26 @@ package tree
 //@     invariant [tips] forall k int :: {tips[k]} 0 <= k && k < len(tips) ==> tips[k] != nil
 //@     invariant [rows] len(matrix) == len(tips) && (forall i int :: {matrix[i]} 0 <= i && i < len(tips) ==> len(matrix[i]) == len(tips))
 //@     invariant [ids] forall i int :: {tips[i]} 0 <= i && i < len(tips) ==> tips[i].id == i
+
+// ---------------------------------------------------------------------------
+// Rename (property C18): the result is a function of the name index and the
+// map, whatever order Go iterates the map in (demonic map iteration)
+// ---------------------------------------------------------------------------
+
+//@ func tree.NewNodeIndex
+//@   requires t != nil
+//@   allocates nodeIndex, map[string]*Node, []*Node, iface
+//@   assigns nothing
+//@   ensures [index_maps_each_name_to_the_node_carrying_it] result1 == nil ==> result0 != nil && result0.index != nil && (forall s string :: {has(result0.index, s)} has(result0.index, s) ==> result0.index[s] != nil && result0.index[s].name == s)
+
+//@ func (*tree.Tree).UpdateTipIndex
+//@   flag treeop
+//@   requires t != nil
+
+//@ func (*tree.Tree).Rename
+//@   flag noframe
+//@   requires t != nil
+//@   loop 1
+//@     assigns Node.name
+//@     invariant [index_still_maps_original_names] nodeindex != nil && nodeindex.index != nil && (forall s string :: {has(nodeindex.index, s)} has(nodeindex.index, s) ==> nodeindex.index[s] != nil)
+//@     invariant [renamed_exactly_the_keys_already_delivered_whatever_the_order] forall s string :: {nodeindex.index[s]} has(nodeindex.index, s) ==> nodeindex.index[s].name == (visited(1, s) ? namemap[s] : s)
